@@ -199,6 +199,11 @@ pub fn reg(m: &mut Map) {
     opx!(m, "el.sum.e", (v: els), rel, <Element as Sum<&Element>>::sum(v.iter()));
     opx!(m, "el.sum.A", (v: afs), rel, <Element as Sum<AffinePoint>>::sum(v.into_iter()));
     opx!(m, "el.sum.a", (v: afs), rel, <Element as Sum<&AffinePoint>>::sum(v.iter()));
+    // iterators without a lower size bound
+    opx!(m, "el.sum.E.lazy", (v: els), rel, <Element as Sum<Element>>::sum(v.into_iter().filter(|_| true)));
+    opx!(m, "el.sum.e.lazy", (v: els), rel, <Element as Sum<&Element>>::sum(v.iter().filter(|_| true)));
+    opx!(m, "el.sum.A.lazy", (v: afs), rel, <Element as Sum<AffinePoint>>::sum(v.into_iter().filter(|_| true)));
+    opx!(m, "el.sum.a.lazy", (v: afs), rel, <Element as Sum<&AffinePoint>>::sum(v.iter().filter(|_| true)));
 
     // ------------------------------------------------------------ predicates, formatting, hashing
     opx!(m, "el.eq", (a: el, b: el), rb, <Element as PartialEq>::eq(&a, &b));
